@@ -142,13 +142,23 @@ def tree_cases(rng, n, res):
                 leaves.append((f, c)); return ('leaf', f, c)
             return ('op', rng.choice('+-*'), build(d - 1), build(d - 1))
         trees.append(build(depth))
+    # products of up to 16 integer-valued leaves with n_frac in {-1, 0} by the value method: the result word stays within 53 bits while
+    # the integer VALUE of the product needs more than 64
+    for _ in range(max(2, n // 20)):
+        words = [4] * rng.choice([3, 4, 5, 5]) + [3] * 16; words = words[:16]; rng.shuffle(words)       # (the words add up to 53 bits at most)
+        def buildp(d):
+            if d == 0:
+                nw = words.pop(); f = (rng.random() < 0.1, nw, -1 if rng.random() < 0.95 else 0); lo, hi = S.fmt_bounds(f[0], f[1])
+                return ('leafv', f, rng.choice([hi, hi, hi, hi, hi - 1, lo if f[0] else hi]))
+            return ('op', '*', buildp(d - 1), buildp(d - 1))
+        trees.append(buildp(4))
     check_trees(trees, res)
 
 def check_trees(trees, res):
     fx = lib.impl(); import numpy as np
     for t in trees:
         def width(t):
-            if t[0] == 'leaf': return t[1]
+            if t[0] in ('leaf', 'leafv'): return t[1]
             a, b = width(t[2]), width(t[3])
             if a is None or b is None: return None
             w = A.grow_word(t[1], a, b)
@@ -160,6 +170,8 @@ def check_trees(trees, res):
         log = []
         def ev(t):
             if t[0] == 'leaf': return A.mk(fx, np, *t[1], t[2])
+            if t[0] == 'leafv':      # a leaf built from its integer VALUE (n_frac <= 0) and computing by the value method
+                return fx.Fxp(int(t[2]) * 2 ** (-t[1][2]), *t[1], op_method='repr')
             a, b = ev(t[2]), ev(t[3])
             z = A.do_op(fx, np, t[1], a, b)
             log.append((t[1], A.fmt_of(a), lib.codes_of(a)[0], A.fmt_of(b), lib.codes_of(b)[0], A.fmt_of(z), lib.codes_of(z)[0], lib.status3(z)))
